@@ -20,6 +20,7 @@ import (
 	"io"
 	"os"
 	"os/exec"
+	"path/filepath"
 	"strconv"
 	"strings"
 	"time"
@@ -74,7 +75,7 @@ type Script struct {
 	Data []byte `json:"-"`
 	Caps []int  `json:"caps"`
 	EWD  bool   `json:"ewd"`
-	Term string `json:"term"` // eof | failOnce | failSticky
+	Term string `json:"term"`          // eof | failOnce | failSticky
 	Err  string `json:"err,omitempty"` // palette entry of ErrKinds the source fails with ("" = custom)
 }
 
@@ -555,3 +556,116 @@ func Inflight(c any) {
 var Stuck int
 
 func TooStuck() bool { return Stuck >= 3 }
+
+// ---- the overlay-dependent loop harness, built and run at run time ----
+
+// RunLoop builds cmd/encloop with the build overlay that exposes the unexported processSegments /
+// readHeader, runs it with the same flags and merges its result into res. If the overlay no longer
+// compiles against the package (the unexported signatures changed), only this tie is reported as
+// broken (a T2 disagreement naming the compiler error); the API-level monitors of the calling
+// harness are unaffected and still look for a concrete failing input.
+func RunLoop(mode string, f lib.Flags, res *lib.Result) {
+	repo := os.Getenv("VERIF_REPO")
+	if repo == "" {
+		repo = "/repo"
+	}
+	verif := os.Getenv("VERIF_DIR")
+	if verif == "" {
+		verif = "/verif"
+	}
+	work := f.Work
+	if work == "" {
+		work = os.TempDir()
+	}
+	harness := filepath.Join(verif, "harness")
+	dir := filepath.Join(work, "encloop_"+mode)
+	os.MkdirAll(dir, 0o755)
+	corr := "build: cmd/encloop + harness/overlay/enc_zz_verif.go against schemes/enc/v1 (processSegments, readHeader signatures)"
+	ov, _ := json.Marshal(map[string]any{"Replace": map[string]string{
+		filepath.Join(repo, "schemes/enc/v1/zz_verif.go"): filepath.Join(harness, "overlay/enc_zz_verif.go")}})
+	ovPath := filepath.Join(dir, "overlay.json")
+	if err := os.WriteFile(ovPath, ov, 0o644); err != nil {
+		res.Disagree(corr, mode, "", err.Error())
+		return
+	}
+	bin := filepath.Join(dir, "encloop")
+	args := []string{"build", "-tags", "verif unit", "-overlay", ovPath, "-o", bin}
+	if repo != "/repo" {
+		gm, err := os.ReadFile(filepath.Join(harness, "go.mod"))
+		if err != nil {
+			res.Disagree(corr, mode, "", err.Error())
+			return
+		}
+		os.WriteFile(filepath.Join(dir, "go.mod"), []byte(strings.ReplaceAll(string(gm), "=> /repo", "=> "+repo)), 0o644)
+		if gs, err := os.ReadFile(filepath.Join(repo, "go.sum")); err == nil {
+			os.WriteFile(filepath.Join(dir, "go.sum"), gs, 0o644)
+		}
+		args = append(args, "-modfile", filepath.Join(dir, "go.mod"))
+	}
+	args = append(args, "./cmd/encloop")
+	cmd := exec.Command("go", args...)
+	cmd.Dir = harness
+	if out, err := cmd.CombinedOutput(); err != nil {
+		msg := string(out)
+		if len(msg) > 1500 {
+			msg = msg[:1500]
+		}
+		res.Disagree(corr, map[string]string{"kind": "build", "mode": mode}, "the overlay compiles (unexported API as modelled)", "go build failed: "+msg)
+		res.Note("the in-package loop tie (T2a) could not be built; API-level monitors only")
+		return
+	}
+	out := filepath.Join(dir, "result.json")
+	os.Remove(out)
+	rargs := []string{"--mode", mode, "--tier", f.Tier, "--seed", strconv.FormatUint(f.Seed, 10), "--drv", f.Drv, "--out", out, "--work", dir}
+	if f.Search {
+		rargs = append(rargs, "--search")
+	}
+	if f.Replay != "" {
+		rargs = append(rargs, "--replay", f.Replay)
+	}
+	run := exec.Command(bin, rargs...)
+	run.Dir = harness
+	var tail tailBuf
+	run.Stdout = os.Stderr
+	run.Stderr = io.MultiWriter(os.Stderr, &tail)
+	rerr := run.Run()
+	b, err := os.ReadFile(out)
+	if err != nil {
+		res.Violate("crash-in-loop-harness", fmt.Sprintf("the in-package loop harness died without a result (%v): %s", rerr, tail.String()), map[string]string{"kind": "build", "mode": mode})
+		return
+	}
+	var sub struct {
+		Evaluations   int                `json:"evaluations"`
+		Nontrivial    int                `json:"distinct_nontrivial"`
+		Samples       []any              `json:"samples"`
+		Distribution  map[string]int     `json:"distribution"`
+		Traces        int                `json:"traces_validated_against_impl"`
+		Disagreements []lib.Disagreement `json:"disagreements"`
+		Violations    []lib.Violation    `json:"violations"`
+		Notes         []string           `json:"notes"`
+	}
+	if err := json.Unmarshal(b, &sub); err != nil {
+		res.Disagree(corr, mode, "", "unreadable result: "+err.Error())
+		return
+	}
+	res.Evaluations += sub.Evaluations
+	res.Nontrivial += sub.Nontrivial
+	res.Traces += sub.Traces
+	for k, v := range sub.Distribution {
+		res.Distribution[k] += v
+	}
+	for i, s := range sub.Samples {
+		if i < 3 {
+			res.Samples = append(res.Samples, s)
+		}
+	}
+	for _, d := range sub.Disagreements {
+		res.Disagree(d.Correspondence, d.Case, d.Model, d.Impl)
+	}
+	for _, v := range sub.Violations {
+		res.Violate(v.FindingID, v.What, v.Case)
+	}
+	for _, n := range sub.Notes {
+		res.Note(n)
+	}
+}
